@@ -90,15 +90,15 @@ Definition h_typemap (a : list sx) : sx :=
   | _ => err "arity"
   end.
 
-(* (predict INT96_TZ HAS_MD PANDAS_NULLS SE MD I (RG ...) AS_CATEGORY) -> (ok DT) | (err) *)
+(* (predict (INT96_TZ ABSENT_COUNTS CAT_MD) HAS_MD PANDAS_NULLS SE MD I (RG ...) AS_CATEGORY) -> (ok DT) | (err) *)
 Definition h_predict (a : list sx) : sx :=
   match a with
   | [i96; hm; pn; se; md; i; rgs; cat] =>
-    match as_bool i96, as_bool hm, as_bool pn, as_se se with
-    | Some i96, Some hm, Some pn, Some se =>
+    match as_list_of as_bool i96, as_bool hm, as_bool pn, as_se se with
+    | Some [r1; r2; r3], Some hm, Some pn, Some se =>
       match as_opt as_md1 md, as_nat i, as_list_of as_rg rgs, as_bool cat with
       | Some md, Some i, Some rgs, Some cat =>
-        s_res (match base_dtype_gen i96 pinned hm pn se md i rgs with
+        s_res (match base_dtype_gen (mk_rules r1 r2 r3) pinned hm pn se md i rgs with
                | RErr => RErr
                | ROk d => if cat then ROk DCat else ROk d
                end)
@@ -120,13 +120,13 @@ Definition h_realise (a : list sx) : sx :=
   | _ => err "arity"
   end.
 
-(* (null_evidence I (RG ...)) -> (0/1)? *)
+(* (null_evidence ABSENT_COUNTS I (RG ...)) -> (0/1)? *)
 Definition h_null_evidence (a : list sx) : sx :=
   match a with
-  | [i; rgs] =>
-    match as_nat i, as_list_of as_rg rgs with
-    | Some i, Some rgs => sopt sbool (null_evidence i rgs)
-    | _, _ => err "args"
+  | [ab; i; rgs] =>
+    match as_bool ab, as_nat i, as_list_of as_rg rgs with
+    | Some ab, Some i, Some rgs => sopt sbool (null_evidence_gen ab i rgs)
+    | _, _, _ => err "args"
     end
   | _ => err "arity"
   end.
